@@ -11,32 +11,44 @@ CFG = {
     "rule": "C05: cases = `new W H` + ops on a PTY-less term.Model (hooks VerifNew/VerifFeed/VerifResize/VerifSnapshot); after EVERY op the "
             "full state snapshot (dims, cursor, lastCol, margins, modes, active screen, pen, charsets, saved cursors, tab stops, both grids "
             "with grapheme/width/style/wrapped) of the implementation is compared with the model's, and the state clause of C05 is evaluated "
-            "on the implementation's snapshot; panic/hang are outcomes. Streams: corpus (17 witnesses of fixed findings), grammar-generated "
+            "on the implementation's snapshot; panic/hang are outcomes. Streams: corpus (18 witnesses of fixed findings), grammar-generated "
             "sequences (print narrow/wide/zero-width/combining, C0, ESC, every CSI final of csi() + unknown ones, parameters omitted/0/1/2/"
-            "size-1/size/size+1/65535/65536/2^31/2^63-1/negative (overflowed), sub-parameters, modes, SGR incl. malformed, OSC, APC, resizes; "
+            "size-1/size/size+1/65535/65536/2^31/2^63-1/negative (overflowed), sub-parameters, modes, SGR incl. malformed, OSC (fixed and generated payloads: known/unknown/empty selectors, 0-5 separators, empty fields, NUL, non-ASCII, long, invalid base64), APC, DCS through the REAL ansi.DCS arm (finals, intermediates, parameters, sixel data around the 4096 limit, oversized raster attributes and repeat counts), resizes; "
             "sizes 1x1..80x24), a slice of the C06 bounded-exhaustive vocabulary sequences (after setup prefixes, `adopt` lines), raw byte fuzz through the real ansi parser. C05Draw: Vaxis on a fake console filled with a marker, emulator drawn into windows partly off-screen / nested / of a different size; oracle: every changed host cell and the cursor lie inside the window. C05Events: the REAL PTY goroutine loop on a real child process "
             "(VerifRunLoop) with 0-40 (thorough: up to 300) event-raising sequences. distinct = distinct op sequences.",
-    "trusted_base": ["uniseg grapheme widths are parameters of the model (passed in the op line by the harness, computed by the real library)",
-                     "base64 validity of an OSC 52 payload is passed in by the harness (OscInfo)",
-                     "Go int arithmetic is modelled by unbounded Int: sound because every CSI parameter is clamped to 0..65535 at dispatch "
-                     "(theorem clampParam_ok) and sizes are <= 65535, so no int64 operation of the modelled code can overflow",
-                     "sixel DCS payloads (external decoder go-sixel) and the graphics list are not modelled",
+    "trusted_base": ["uniseg grapheme widths are parameters of the model (passed in the op line by the harness, computed by the real library); "
+                     "the safety theorems hold for EVERY width (parameters_needed) and the harness checks Width >= 0 on the real parser's output",
+                     "base64 validity of an OSC 52 payload is passed in by the harness (OscInfo); safety holds for either verdict",
+                     "the external sixel decoder (go-sixel) is a parameter: safety of the DCS arm is proved under the hypothesis DecoderTame "
+                     "(no panic / unbounded allocation / unbounded loop on a payload that sixelTooLarge lets through), which the C05 stream "
+                     "checks on the real library on every generated payload (counter dcs:DECODER-CRASH-WITHIN-LIMIT, note hypothesis_violations)",
+                     "Go int is modelled by unbounded Int: proved sound for 36 of the 40 translated bodies (Props/C05Overflow range_<fn>: every +/- "
+                     "stays within 2^62 on every good state with parameters clamped to 0..65535); for print, resize, cht, cbt it still rests on the "
+                     "bounds of the safety lemmas and the correspondence run",
+                     "evalBody (the meaning of the translated bodies) fixes loop bounds, vt.width()/height() and the pen at loop entry and treats a "
+                     "return inside a final loop as break: justified syntactically (Body.wf, proved for every generated body), not against a Go semantics",
+                     "resize(): the reflow loop nest is a primitive of the translator (source text pinned there) whose meaning is the model's reflow",
+                     "not translated, transcribed by hand + correspondence: decsc/decrc/ris, the special arms of mode.go, sgr(), osc()",
                      "C05Events: the LTS of the PTY goroutine is tied to the source by the extracted facts eventCap, postEventIsPlainSend, "
                      "loopArms, loopDrainsFirst and validated against the real loop by the C05Events stream"],
     "assumptions": ["terminal sizes between 1x1 and 65535x65535 (winsize fields are uint16; the property starts at 1x1)",
-                    "one parsed sequence raises at most one event (theorem events_per_op_le_one for the model)"],
+                    "one parsed sequence raises at most one event (theorem events_per_op_le_one for the model)",
+                    "the host terminal answers an OSC 11 query (QueryBackground blocks on its reply; outside the child-output model)"],
     "level_text": "C05: for every state satisfying the invariant (cursor on the screen, margins ordered and within the screen, all rows of both "
-                  "grids exactly the terminal's width), every terminal size 1x1..65535x65535, EVERY parsed sequence with EVERY parameter list in Z "
-                  "and every resize, the model of the current code neither panics nor hangs and re-establishes the invariant (emu_safe_step), lifted "
-                  "to all histories by induction (emu_safe_run, session_safe). Draw writes only inside the host window (draw_clipped). The PTY "
-                  "goroutine never blocks in postEvent for any number of events and any schedule (events_never_stall_current). The statement was "
-                  "false before the repairs F15-F20, F105a-f: Witness/F*.lean prove it from concrete inputs.",
+                  "grids exactly the terminal's width), every terminal size 1x1..65535x65535, EVERY parsed sequence with EVERY parameter list in Z, "
+                  "every OSC payload, every DCS (under DecoderTame for sixel) and every resize, the model of the current code neither panics nor hangs "
+                  "and re-establishes the invariant (emu_safe_step, dcs_safe), lifted to all histories by induction (emu_safe_run, session_safe). Draw "
+                  "writes only inside the host window (draw_clipped). The PTY goroutine never blocks in postEvent for any number of events and any "
+                  "schedule (events_never_stall_current). The model functions ARE the Go bodies: for 40 functions (all of csi.go, c0.go, ind/nel/ri/hts, "
+                  "print, resize, scrollUp/Down) the body translated from the source on every run evaluates to the model function for all states "
+                  "(body_<fn>). The statement was false before the repairs F15-F20, F105a-i: Witness/F*.lean prove it from concrete inputs.",
     "level_note": "Proved (all inputs, all sizes, all histories, all schedules): safety + invariant for the model; Draw clipping; event loop "
-                  "deadlock-freedom. Model tied to the source by Gen/TermModes.lean (dispatch labels with their callee, mode tables, sgr labels, "
-                  "attribute bits, tab stops, event channel, loop shape — regenerated every run; the model dispatches through these tables) and by "
-                  "the correspondence check (snapshot after every op). Validated by correspondence only: the function bodies (ICH..DECSTBM, print, "
-                  "resize, ...) are transcribed by hand. Modelled not verified: uniseg widths, base64, sixel decoding, int64 overflow (excluded by "
-                  "the parameter clamp).",
+                  "deadlock-freedom; model function = translated Go body for 40 functions (Gen/TermBodies.lean regenerated every run; unknown "
+                  "statements fail bodies_fully_recognised); no int64 overflow in 36 of them (range_<fn>); osc()/DCS/APC total for arbitrary "
+                  "payloads. Also tied by Gen/TermModes.lean (dispatch labels with their callee, mode tables, sgr labels, attribute bits, tab stops, "
+                  "event channel, loop shape, DCS guards and size limit) and by the correspondence check (snapshot after every op, real DCS/OSC "
+                  "payloads). Validated by correspondence only: decsc/decrc/ris, mode special arms, sgr, osc bodies; the reflow loop nest of resize "
+                  "(pinned primitive). Hypotheses checked at run time: Width >= 0, CSI parameters non-empty, sixel decoder tame within the size limit.",
     "technique": "Lean 4 proof (invariant + per-operation safety lemmas + induction over histories; LTS invariant for the event loop)",
     "timeout": 1500,
 }
